@@ -1073,7 +1073,18 @@ def check_c02(pid, tier, build, props):
                                    "witness": {"reason": "restructuring raised on a closed CFG", "site": f["site"]}})
     total = sn["graphs"] + extra
     nth = len(props["theorems"])
+    from . import piperun
+    pr = piperun.get(tier, common.seed())
+    tie_ok = pr["mismatch_count"] == 0 and not pr["harness_errors"] and pr["agree"] > 0
+    if not tie_ok:
+        # the model of the pipeline no longer computes what the implementation computes: the bounded
+        # theorem C02_pipeline_model_le4 stops speaking about the code.  (A graph on which the
+        # implementation raises is reported above as a concrete violation.)
+        problems.append("correspondence implementation = Model/Pipe.v broken: %d of %d graphs differ, first: %r%s"
+                        % (pr["mismatch_count"], pr["graphs"], pr["mismatches"][:1],
+                           (" harness: %r" % pr["harness_errors"][:1]) if pr["harness_errors"] else ""))
     coverage = {
+        "pipeline_model": dict(piperun.summary(pr), holds=tie_ok),
         "evaluations": total,
         "distinct_nontrivial": total - sn["distribution"]["n"].get("1", 0),
         "rule": "closed CFGs with at most two distinct successors per block: ALL with <=4 blocks (3879)%s, shapes, "
@@ -1087,16 +1098,22 @@ def check_c02(pid, tier, build, props):
                           exhaustive5=extra - len(real)),
         "exceptions": len(sn["exceptions"]) + sum(len(f) for _, f in res),
         "component_theorems": props["theorems"],
-        "obligations_total": nth, "discharged_total": nth if props["ok"] else 0,
+        "obligations_total": nth + 1, "discharged_total": (nth if props["ok"] else 0) + (1 if tie_ok else 0),
         "explanation": "The universal statement (forall closed g, restructure g terminates without raising) is NOT "
                        "proved: it needs a total-correctness proof of the whole pipeline. Decided by running the "
                        "implementation on the enumerated space (exhaustive up to the stated bound). Proved in Coq "
                        "(Props/C02.v): totality of the value-table rewrite with equal arity (the site repaired by "
                        "cecde5d), find_head succeeds whenever a unique un-targeted block exists, the breadth-first "
-                       "iterators terminate on every graph.",
+                       "iterators terminate on every graph; and, over an executable model of the WHOLE pipeline "
+                       "(Model/Pipe.v: join_returns, loop_restructure_helper, extract_region, restructure_branch "
+                       "and everything they call, dictionary order included), C02_pipeline_model_le4: on every "
+                       "closed graph with at most 4 blocks all three stages complete (checked by the kernel's VM "
+                       "on all 3879 graphs). The model is tied to the code on every run by comparing its whole "
+                       "state with the implementation's after each stage on the same graphs (pipeline_model).",
     }
     return {"coverage": coverage, "violations": violations, "problems": problems, "level": "exploration",
-            "wall_s": t.s(), "broken_name": "Props/C02.v (component totality) / acceptance run"}
+            "wall_s": t.s(), "broken_name": "Props/C02.v (component totality, C02_pipeline_model_le4) / acceptance "
+                                            "run / correspondence implementation = Model/Pipe.v (PipeRun.run_pipe)"}
 
 
 def par_nproc():
